@@ -949,6 +949,9 @@ func (fr *frame) builtin(b *ssa.Builtin, in ssa.Instruction, c *ssa.CallCommon, 
 	pos := in.Pos()
 	switch b.Name() {
 	case "len":
+		if _, isMap := c.Args[0].Type().Underlying().(*types.Map); isMap {
+			fr.guardCheck(c.Args[0], false, reach, pos)
+		}
 		switch x := args[0].(type) {
 		case Term:
 			switch {
@@ -1023,6 +1026,7 @@ func (fr *frame) builtin(b *ssa.Builtin, in ssa.Instruction, c *ssa.CallCommon, 
 		fc.unsupported("append on sort %s in %s", s.Sort, fr.fn.Name())
 		return fc.fresh("app", s.Sort)
 	case "delete":
+		fr.guardCheck(c.Args[0], true, reach, pos)
 		m := args[0].(Term)
 		k := args[1].(Term)
 		mt := c.Args[0].Type().Underlying().(*types.Map)
